@@ -9,6 +9,7 @@ import FrappyProofs.Lemmas.CommExchange
 import FrappyProofs.Lemmas.CommProtect
 import FrappyProofs.Lemmas.CommStateTrue
 import FrappyProofs.Lemmas.CommCallbacksIdent
+import FrappyProofs.Lemmas.CommTimeoutAll
 import FrappyModel.Generated.C16
 /-
 C16 — property theorems (nothing but property theorems and their non-vacuity examples).
@@ -672,6 +673,60 @@ theorem fails_within_timeout_run (cfg : Cfg) (cbs : List Nat) (evs : List TEv) (
         split at this
         · simp only [Option.some.injEq] at this; subst this; simp at hne
         · simp at this
+
+/-- Fails within the time-out, EVERY read — for EVERY accepted run (any configuration, identification and replies of
+variable length included): a `recv` of caller `c` that ends empty (position u) belongs to the read started by `c`'s own
+last read-starting event p < u — the send of a command, an identification request (`isend`) or a `readBytes` of
+`getFullReply` (`more`), each of which has the communicator's time-out — and it ends no later than one `recv` period after
+the end of that time-out, or after the last byte-carrying `recv` of that read, up to the clock slack.
+(`fails_within_timeout_run` is the special case without identification and with replies of fixed length, where p is a send.) -/
+theorem fails_within_timeout_all (cfg : Cfg) (cbs : List Nat) (evs : List TEv) (hacc : Accepted cfg cbs evs)
+    (c u : Nat) (hu : evAt evs u = some (.recv c .empty)) :
+    ∃ p, LoopStart (evs.take u) c p ∧
+      timeAt evs u ≤ max (timeAt evs p + cfg.timeout + cfg.slack) (lastDataTime evs c p u) + cfg.gran + cfg.slack := by
+  unfold Accepted at hacc
+  cases hex : exec { cfg := cfg, cbsReg := cbs } evs with
+  | none => simp [hex] at hacc
+  | some sf =>
+    have hult : u < evs.length := by
+      false_or_by_contra; rename_i hn
+      rw [evAt_none evs u (by omega)] at hu; simp at hu
+    obtain ⟨eu, heu⟩ : ∃ eu, evs[u]? = some eu := ⟨evs[u], by simp [hult]⟩
+    have hv : eu.ev = .recv c .empty := by simpa [evAt, heu] using hu
+    obtain ⟨sk, sk', hpre, hst⟩ := exec_cut _ evs u eu heu sf hex
+    have he := einvAll_exec cfg cbs (evs.take u) sk hpre
+    have ht := tinv_exec cfg cbs (evs.take u) sk hpre
+    have hlen : (evs.take u).length = u := by simp; omega
+    have htu : timeAt evs u = eu.t := by simp [timeAt, heu]
+    rw [step_caller_form sk eu c (by rw [hv]; rfl)] at hst
+    split at hst
+    · simp at hst
+    · rw [hv] at hst
+      have hloop := step_recv_empty_loop _ sk' eu.t c c hst
+      simp only at hloop
+      obtain ⟨p, hls, h1, h2, h3⟩ := he.e c hloop
+      have hpl := loopStart_lt hls
+      rw [hlen] at hpl
+      refine ⟨p, hls, ?_⟩
+      have hp' : loopPc (sk'.callers c).pc = true := by
+        have := hst
+        cases hpc : (sk.callers c).pc <;> simp only [hpc, loopPc] at hloop <;> try (simp at hloop)
+        all_goals (
+          simp only [stepCaller, hpc] at this
+          split at this
+          · simp only [Option.some.injEq] at this; subst this; simp [hpc, loopPc]
+          · simp at this)
+      rcases step_loop _ sk' eu.t c _ hst hp' with ⟨_, _, hcase⟩ | ⟨hk, _⟩
+      · rcases hcase with ⟨_, hg, hm, _, _⟩ | ⟨⟨x, d, hx⟩, _⟩
+        · simp only at hg hm
+          rw [ht.cfg_eq] at hg hm
+          have hb := mayRetry_lastT hm h2 h3
+          unfold waitBound at hb
+          rw [hlen, lastDataTime_take, h1, timeAt_take evs u p hpl] at hb
+          rw [htu]
+          omega
+        · simp at hx
+      · simp [loopStartKind] at hk
 
 /-- Every caller receives the reply to its own command — for EVERY accepted run, in the form of what a call RETURNS:
 each reply in the result of a call of caller `c` (return at position b) is framed (first line / first `rlen` bytes)
@@ -1420,6 +1475,23 @@ example : connectAt identHealRun 4 ≠ none ∧ connectAt identHealRun 27 = some
 -- delays_honoured (window form) on the runs above
 example : DelaysHonoured protectedRun ∧ DelaysHonoured identMultiRun :=
   ⟨delays_honoured findingCfgA [] _ (by unfold Accepted; decide), delays_honoured identCfg [] _ (by unfold Accepted; decide)⟩
+
+/-- with an identification: the device accepts the connection but does not answer the identification request — two empty
+`recv`s, the time-out, `checkHWIdent` fails, the call fails -/
+def identSilentRun : List TEv := [
+  ⟨5000000, .call 1 .comm [⟨[65], true, 2, 0⟩]⟩, ⟨5000000, .chk 1 false⟩, ⟨5000001, .now 1 5000001⟩, ⟨5000002, .now 1 5000002⟩,
+  ⟨5000002, .connect 1 true true⟩, ⟨5000003, .isconn 1 true⟩,
+  ⟨5000003, .chk 1 true⟩, ⟨5000003, .acq 1⟩, ⟨5000003, .flush 1⟩, ⟨5000003, .isend 1 0 0 [73, 68]⟩,
+  ⟨6000004, .recv 1 .empty⟩, ⟨7000005, .recv 1 .empty⟩, ⟨7000006, .rel 1⟩, ⟨7000007, .idend 1 false⟩, ⟨7000008, .ret 1 .err⟩]
+
+-- fails_within_timeout_all: the empty recvs at 10 and 11 belong to the read started by the identification request at 9
+example : Accepted identCfg [] identSilentRun ∧ evAt identSilentRun 9 = some (.isend 1 0 0 [73, 68]) ∧
+    evAt identSilentRun 11 = some (.recv 1 .empty) ∧ timeAt identSilentRun 11 = 7000005 := by
+  unfold Accepted; decide
+example : ∃ p, LoopStart (identSilentRun.take 11) 1 p ∧
+    timeAt identSilentRun 11 ≤ max (timeAt identSilentRun p + identCfg.timeout + identCfg.slack)
+      (lastDataTime identSilentRun 1 p 11) + identCfg.gran + identCfg.slack :=
+  fails_within_timeout_all identCfg [] identSilentRun (by unfold Accepted; decide) 1 11 (by decide)
 
 /-! ## facts about the constants taken from the source (re-generated on every run) -/
 
